@@ -348,6 +348,12 @@ def r5_consumer_accounting(prog, rep: Report, pf: PoolFacts):
             if len(bl.body) != 2:
                 probs.append("the emit loop contains extra statements")
             role = f"ordered via {btype}"
+        elif any(isinstance(st_, ast.Expr) and isinstance(st_.value, ast.Call) and isinstance(st_.value.func, ast.Name)
+                 and [src(a_) for a_ in st_.value.args] == [ri, rc] for st_ in pl.body) and ri is not None:
+            # "store the whole batch, then drain once": the pairs are fed to the reorder buffer in their roles, the emission loop
+            # stands after the pair loop: another arrangement than the one this rule reads
+            rep.unrec("C01.R5", f, "accounting", "the received pairs are stored in the reorder buffer first and emitted by a separate loop")
+            continue
         else:
             if _incs_of(pl.body, fin) != 1:
                 probs.append(f"each received chunk must increment `{fin}` exactly once")
